@@ -238,6 +238,7 @@ func c14Case(c *core.Ctx, r *core.Rand, i int, caseDir string) {
 	if i%499 == 1 {
 		c.Sample(map[string]any{"graph": core.Trunc(desc, 700), "output": core.Trunc(res.Out, 200)})
 	}
+	c14Extra(c, r, i, cwd)
 	// natural non-ENOENT faults: a directory where a file is expected, a path through a regular file
 	if i%10 == 0 {
 		for _, arg := range []string{"sub", "top-is-a-file/x.html"} {
@@ -251,4 +252,76 @@ func c14Case(c *core.Ctx, r *core.Rand, i int, caseDir string) {
 		}
 	}
 	_ = badArg
+}
+
+// c14Extra: two model-free laws.
+// (1) An included file is rendered exactly as its content rendered directly, also when that content begins
+// or ends with whitespace-control markers: the markers act inside the file, not on the includer's text.
+// (2) What an engine rendered earlier does not matter: a top-level template that shares a partial (which
+// itself includes) with another top-level template in another directory renders the same on a fresh engine
+// and on an engine that rendered the other one first.
+func c14Extra(c *core.Ctx, r *core.Rand, i int, cwd string) {
+	env := gen.StdEnv(r)
+	b := gen.CanonEnv(env)
+	// ---- (1)
+	f := gen.Features{Loops: true, Case: true, Filters: true, Trim: true, WSText: true, Assign: false, MaxDepth: 2, MaxNodes: 6}
+	g := gen.NewG(r, f, env)
+	body := gen.DefaultStyle.Source(g.Program())
+	switch r.Intn(4) {
+	case 0:
+		body = "{{- s -}}" + body
+	case 1:
+		body = body + "{%- if t -%} x {%- endif -%}"
+	case 2:
+		body = "  {{- n -}}  "
+	}
+	dir := filepath.Join(cwd, "x1")
+	os.MkdirAll(dir, 0o755)
+	os.WriteFile(filepath.Join(dir, "edge.html"), []byte(body), 0o644)
+	e := liquid.NewEngine()
+	alone := core.Run(e, body, b)
+	for _, top := range []string{"A {% include 'edge.html' %} B", "A \n{% include 'edge.html' %}\n B {{- n }}", "{% for q in (1..2) %} [ {% include 'edge.html' %} ] {% endfor %}"} {
+		res := core.RunAt(e, top, filepath.Join(dir, "top.liquid"), 1, b)
+		c.Eval(2)
+		c.Obs("edge_trim_includes", 1)
+		if alone.Panic != "" {
+			continue
+		}
+		want := strings.ReplaceAll(top, "{% include 'edge.html' %}", "\x00")
+		wantRes := core.Run(e, strings.ReplaceAll(want, "\x00", "{{ vinc_placeholder }}"), mergeBinding(b, "vinc_placeholder", alone.Out))
+		ok := alone.Failed() && res.Failed() || alone.OK() && res.OK() && wantRes.OK() && res.Out == wantRes.Out
+		if !ok {
+			c.Violate("include|not-the-files-own-output|"+resClass(res), "include must insert exactly the output that rendering the file's content directly gives (trim markers at the edges of the file act inside the file)",
+				map[string]any{"top": top, "file_content": body, "file_alone": alone.Brief(), "expected": wantRes.Brief(), "observed": res.Brief()})
+		}
+	}
+	// ---- (2)
+	d1, d2 := filepath.Join(cwd, "site1"), filepath.Join(cwd, "site2")
+	os.MkdirAll(d1, 0o755)
+	os.MkdirAll(d2, 0o755)
+	os.WriteFile(filepath.Join(d1, "shared.html"), []byte("<shared {{ n }} {% include 'leaf.html' %}>"), 0o644)
+	os.WriteFile(filepath.Join(d1, "leaf.html"), []byte("[leaf of site1]"), 0o644)
+	os.WriteFile(filepath.Join(d2, "leaf.html"), []byte("[leaf of site2 {{ s }}]"), 0o644)
+	top1, top2 := "one: {% include 'shared.html' %}", "two: {% include '../site1/shared.html' %}{% include 'leaf.html' %}"
+	p1, p2 := filepath.Join(d1, "index.liquid"), filepath.Join(d2, "index.liquid")
+	solo := core.RunAt(liquid.NewEngine(), top2, p2, 1, b)
+	shared := liquid.NewEngine()
+	first := core.RunAt(shared, top1, p1, 1, b)
+	after := core.RunAt(shared, top2, p2, 1, b)
+	again := core.RunAt(shared, top1, p1, 1, b)
+	c.Eval(4)
+	c.Obs("include_history_cases", 1)
+	if !solo.Same(after) || !first.Same(again) || solo.Panic != "" {
+		c.Violate("include|depends-on-earlier-renders", "a template with includes rendered differently on an engine that had rendered another template (sharing a partial) before",
+			map[string]any{"top1": top1, "top2": top2, "top2_on_fresh_engine": solo.Brief(), "top2_after_top1": after.Brief(), "top1_first": first.Brief(), "top1_again": again.Brief()})
+	}
+}
+
+func mergeBinding(b map[string]any, k string, v any) map[string]any {
+	out := make(map[string]any, len(b)+1)
+	for kk, vv := range b {
+		out[kk] = vv
+	}
+	out[k] = v
+	return out
 }
